@@ -1,16 +1,18 @@
 #!/bin/bash
-# usage: seed_eval.sh <ID> [<check ids...>]   evaluates /tmp/wt_<ID>/seed against /repo
 set -u
 # usage: seed_eval.sh <ID> [<seed dir> [<name under /verif/seeded>]]
+#   re-evaluation of a stored change: seed_eval.sh C19 /verif/seeded/C19-b C19-b
 ID=$1
 SRC=${2:-/tmp/wt_$ID/seed}
 NAME=${3:-$ID}
 CHECKS=$ID
 DST=/verif/seeded/$NAME
 mkdir -p $DST
-cp $SRC/patch.diff $DST/patch.diff
-cp $SRC/meta.json $DST/meta.json
-rm -rf $DST/demonstration; cp -r $SRC/demo $DST/demonstration
+if [ "$(readlink -f $SRC)" != "$(readlink -f $DST)" ]; then
+  cp $SRC/patch.diff $DST/patch.diff
+  cp $SRC/meta.json $DST/meta.json
+  rm -rf $DST/demonstration; cp -r $SRC/demo $DST/demonstration
+fi
 cd /repo
 git checkout -q -- . 
 if ! git apply --check $DST/patch.diff; then echo "PATCH DOES NOT APPLY" > $DST/eval.txt; exit 1; fi
@@ -20,7 +22,11 @@ echo "== cargo test --workspace --offline (patched tree)"
 CARGO_NET_OFFLINE=true cargo test --workspace --offline 2>&1 | grep -E "^test result|FAILED|^error" | sort | uniq -c
 for c in $CHECKS; do
   echo "== ./check $c --tier quick (patched tree)"
-  (cd /verif && ./check $c --tier quick 2>&1 | grep -E "VIOLATION|KNOWN-FINDING|tier=" | head -8)
+  (cd /verif && ./check $c --tier quick 2>&1 | grep -E "VIOLATION|KNOWN-FINDING|tier=" | head -8
+   python3 -c "
+import json
+e=json.load(open('/verif/evidence/$c.json'))
+print('failing check ids (id: cases):', e['coverage'].get('disagreeing_check_ids'))")
 done
 } > $DST/eval.txt 2>&1
 git checkout -q -- .
